@@ -12,8 +12,8 @@ RULE = ("exhaustive: all 256 byte values (decode, re-encode, distinctness, ASCII
         "character through '.ascii' and a 'c literal in a real assembly); all 0x110000 code points (encodable iff one of the 256 "
         "table characters or the documented alias U+00A4 -> 0x24; otherwise UnicodeEncodeError naming position and codec); every "
         "unencodable BMP code point (plus every 257th astral one, plus each table letter followed by one of 13 combining marks) in real "
-        "assemblies in 3 (thorough: all 9) of the places where source characters are encoded - .ascii/.asciz with each quote, open and "
-        "closed character literals, two-character literals, immediates - each of which must be refused with invalid-character; random "
+        "assemblies in 4 (thorough: all 11) of the places where source characters are encoded - .ascii/.asciz with each quote, open and "
+        "closed character literals, two-character literals, immediates, tape names - each of which must be refused with invalid-character; random "
         "strings of <= 40 characters with offenders at drawn positions, directly and through '.ascii'/'.asciz'/'c programs. "
         "Non-trivial: every exhaustive case; random strings with >= 1 offender not at index 0 or >= 2 distinct encodable characters. "
         "Distinct = distinct byte / code point / string.")
@@ -83,6 +83,19 @@ def run_shard(spec, ctx):
             ctx.case(("ascii", b), True, ["ascii-byte"], sample=text if b in (0x41, 0xe1) else None)
             for sig, msg in oracle.check_expect(case, prefix="asm-ascii:"):
                 ctx.fail(sig, f"byte 0x{b:02x} char {c!r}: {msg}", case)
+            # the raw byte as a <n> chunk next to its own character: x, b, b
+            text = f'.ascii "x"<{b:o}>"{lit(c)}"\n'
+            case = oracle.expect_ok(oracle.single(text), bytes([0x78, b, b]))
+            ctx.case(("chunk", b), True, ["ascii-chunk-byte"], sample=text if b == 0xa4 else None)
+            for sig, msg in oracle.check_expect(case, prefix="asm-chunk:"):
+                ctx.fail(sig, f"byte 0x{b:02x}: {msg}", case)
+            # the character at the end of a tape name: the header carries its byte (then blanks)
+            text = f'\tnop\n\tmake_wav "t.wav", "ab{lit(c)}"\n'
+            out = driver.assemble([("/vf/c14t.mac", text)])
+            got = out.emitted[0][4] if out.kind == "ok" and out.emitted else None
+            ctx.case(("tape", b), True, ["tape-name-byte"], sample=text if b == 0x85 else None)
+            if got != (b"ab" + bytes([b])).ljust(16, b" "):
+                ctx.fail("asm-tape:name", f"byte 0x{b:02x} char {c!r} at the end of a tape name: header name {got!r} ({oracle.brief(out)})", oracle.expect_ok(oracle.single(text), b"\xa0\x00"))
             if c not in "\t\r\n":
                 text = f".word '{lit(c) if c != chr(39) else chr(92) + chr(39)}\n"
                 case = oracle.expect_ok(oracle.single(text), bytes([b, 0]))
@@ -129,13 +142,13 @@ def run_shard(spec, ctx):
         marks = [chr(m) for m in (0x300, 0x301, 0x302, 0x303, 0x306, 0x308, 0x30A, 0x30C, 0x327, 0x328, 0x338, 0x342, 0x345)]
         items += [c + m for c in chars if c and (c.isalpha() or c in "<=>;`") for m in marks]
         items = items[spec["i"]::spec["n"]]
-        contexts = ['\t.ascii "{}"', "\t.asciz /a{}b/", "\t.word '{}", "\t.word '{}'", "\t.byte '{}'", "\tmov #'{}, r0", '\t.word "{}a', '\t.word "a{}"', "\t.ascii 'ab'<12>'{}'"]
+        contexts = ['\t.ascii "{}"', "\t.asciz /a{}b/", "\t.word '{}", "\t.word '{}'", "\t.byte '{}'", "\tmov #'{}, r0", '\t.word "{}a', '\t.word "a{}"', "\t.ascii 'ab'<12>'{}'", '\tmake_wav "t.wav", "ab{}"', '\tmake_turbo_wav "t.wav", "{}ab"']
         LINEBREAKS = "\n\r\x0b\x0c\x1c\x1d\x1e\x85\u2028\u2029"
         for b in range(0, len(items), 128):
             chunk = items[b:b + 128]
             lines = []
             for j, it in enumerate(chunk):
-                which = range(len(contexts)) if spec["tier"] == "thorough" else [(b + j) % len(contexts), (b + j + 3) % len(contexts), (b + j + 7) % len(contexts)]
+                which = range(len(contexts)) if spec["tier"] == "thorough" else [(b + j) % len(contexts), (b + j + 3) % len(contexts), (b + j + 7) % len(contexts), 9 + (b + j) % 2]
                 for w in which:
                     if len(it) > 1 and w in (2, 3, 4, 5, 6, 7):
                         continue        # a character literal holds one (or exactly two) characters
